@@ -44,8 +44,17 @@ def gen_case(rng):
     if rng.random() < 0.2:
         vals[rng.randrange(h * w)] = float("nan")
     targets = []
-    if rng.random() < 0.3:
+    r_t = rng.random()
+    if r_t < 0.25:
         targets = rng.sample([1.0, 2.0, 3.0, 4.0, 5.0], rng.randrange(1, 3))
+    elif r_t < 0.4:
+        # 0 as an explicit target on a mostly non-zero raster: a halo filled with anything but NaN would add targets
+        targets = rng.choice([[0.0], [0.0, 2.0]])
+        vals = [1.0] * (h * w)
+        for _ in range(rng.randrange(1, 3)):
+            vals[rng.randrange(h * w)] = 0.0
+        if rng.random() < 0.5:
+            vals[rng.randrange(h * w)] = 2.0
     diag = math.hypot((w - 1) * sx, (h - 1) * sy)
     cands = [0.3, 0.5, 1.0, 1.5, 2.0, 2.5, 3.2, 5.0, diag, diag * 0.99, None, 1.0 * sx, 1.0 * sy, 2.0 * sy + 0.25]
     if metric == "GREAT_CIRCLE":
@@ -56,7 +65,7 @@ def gen_case(rng):
         cands = fit or cands
     md = rng.choice(cands)
     return dict(h=h, w=w, sx=sx, sy=sy, desc_y=rng.random() < 0.4, desc_x=rng.random() < 0.2,
-                x0=rng.choice([0.0, 10.0, -3.5]), y0=rng.choice([0.0, 5.0, -2.0]), metric=metric,
+                x0=rng.choice([0.0, 0.0, 10.0, -3.5]), y0=rng.choice([0.0, 0.0, 5.0, -2.0]), metric=metric,
                 vals=[tok(v) for v in vals], targets=targets, max_distance=md, mode=rng.choice(MODES),
                 rch=list(random_composition(rng, h)), cch=list(random_composition(rng, w)),
                 sched=rng.choice([["synchronous", None], ["threads", 2], ["threads", 4]]),
